@@ -244,4 +244,42 @@ PROPS = {
         "assumptions": COMMON_ASSUMPTIONS,
         "technique": "runtime monitoring: bounded-exhaustive step programs and two-thread interleavings against an abstract state machine; fresh-process install race with injected delay; ThreadSanitizer in the thorough tier",
     },
+    "C08": {
+        "rule": ("histories: ALL operation sequences of length <=3 (thorough <=4) over 22 op instances on a 2-field scheme "
+                 "(Array(Bytes), Map(Array(Int)), both optional): set by field with 1 well-typed + 3 ill-typed values per "
+                 "field (wrong primitive; right container, wrong element; right shape, wrong depth), set by name (good, "
+                 "wrong type, unknown name), set with a field of a structurally identical foreign scheme, clear, "
+                 "clone_with (continue on clone / on original), borrow_with{sets}drop, take_with, execute filter + value "
+                 "expressions, execute against a foreign-scheme context (must be a scheme-mismatch error and invoke no "
+                 "function), compare all live contexts; after EVERY step every field of every live context is read back, "
+                 "its deep type checked and compared with the model; random: histories of 20-80 steps over the rich "
+                 "scheme; constructors: Array::try_from_iter/try_from_vec, Map::try_from_iter with homogeneous and "
+                 "heterogeneous element lists; typed: the transmute-based TypedArray/TypedMap accessors. "
+                 "distinct_nontrivial = distinct histories of length >=2."),
+        "quick": [st("rel")],
+        "thorough": [st("rel"), st("dbg"), st("asan")],
+        "floors": {"quick": {"evaluations": 150000, "distinct_nontrivial": 12000, "heterogeneous_inputs": 800}},
+        "assumptions": COMMON_ASSUMPTIONS,
+        "technique": "runtime monitoring: bounded-exhaustive and random operation histories against an abstract typed-map model with a deep-type invariant walked after every step",
+    },
+    "C11": {
+        "rule": ("wildcard: ALL patterns over {a, B, *, backslash, ?} up to length 6 (thorough 7), each as quoted and raw "
+                 "literal, with `wildcard` and `strict wildcard`, parsed under star limits 0..4 and unlimited: accepted "
+                 "iff the reference parser finds no invalid escape, no `**` and at most `limit` stars; every accepted "
+                 "pattern is executed on 406 values (all strings over {a,A,b,B,*,backslash,?} up to length 3 plus non-UTF-8, "
+                 "NUL, newline) against an independent matcher (ASCII case folding iff not strict); regex: generated "
+                 "subset patterns (literals, ., classes with ranges/negation/quotes/brackets, ? * +, alternation, "
+                 "groups, ^ $, \\xHH, \\d \\w) in quoted and raw form: the pattern in the AST must equal the "
+                 "generated one, and matching on ~16 values must equal an independent backtracking matcher (cross-checked "
+                 "against a regex_automata instance built in the harness with the documented configuration; "
+                 "disagreements between the two references are discarded and counted); regex-limits: acceptance "
+                 "under compiled-size limits 1..10^7 must be monotone and equal to a harness-built meta regex with the "
+                 "same knobs, and the DFA cache knob must not be confused with it; regex-fixed: defaults, oversized "
+                 "and invalid regexes. distinct_nontrivial = distinct valid wildcard patterns + distinct regexes."),
+        "quick": [st("rel")],
+        "thorough": [st("rel"), st("dbg")],
+        "floors": {"quick": {"evaluations": 5000000, "distinct_nontrivial": 10000, "wildcard_matches": 20000,
+                             "regex_matches": 50000, "regex_non_matches": 50000, "limit_rejects": 1000}},
+        "assumptions": COMMON_ASSUMPTIONS + ["compiled-size acceptance is compared with regex-automata itself (built in the harness): what is checked is that the limits are forwarded to the documented knobs, not regex-automata's own accounting"],
+    },
 }
